@@ -34,6 +34,7 @@ Inv_FamRefines ==
   stage = 2 =>
     LET b == Scratch(out) IN
     /\ Obl_Legal(b, EpFix)
+    /\ Obl_SemiValidate(b)
     /\ \A m \in PseudoLegal(out) : Obl_Make(b, m) /\ Obl_Undo(b, m)
     /\ Obl_Undo(b, NullMove)
 =============================================================================
